@@ -138,12 +138,17 @@ End C12.
 (** ---- the tie to the program text of the working tree (coq/Gen/ConcText.v is regenerated
     from spyne/ by harness/translate/conctext.py on every run) *)
 
-(** the access skeletons of the eight functions ARE the ones the [Repaired] model mirrors,
-    the locks are created as locks and the shared variables have no other writer *)
+(** the access skeletons of the eight functions are, as far as shared state goes, the ones the
+    [Repaired] model mirrors: for EVERY choice of branches (up to 6 tests met) and whether or not
+    validate() raises, the generated skeleton performs the same shared accesses, meets tests of the
+    same kinds and leaves in the same way, in the same order, as the skeleton the model was written
+    against ([sk_equiv], coq/C12/Text.v; statements on objects still private to the thread and the
+    spelling of a lock-protected region are not compared); the locks are created as locks and the
+    shared variables have no other writer *)
 Theorem C12_text_is_model_text :
-  g_wsdl = text_wsdl Repaired /\ g_get = text_get /\ g_build = text_build /\
-  g_attrs = text_attrs Repaired /\ g_validate = text_validate Repaired /\
-  g_memo = text_memo /\ g_sort = text_sort /\ g_cdict = text_cdict /\ g_side = true.
+  sk_equiv g_wsdl (text_wsdl Repaired) && sk_equiv g_get text_get && sk_equiv g_build text_build &&
+  sk_equiv g_attrs (text_attrs Repaired) && sk_equiv g_validate (text_validate Repaired) &&
+  sk_equiv g_memo text_memo && sk_equiv g_sort text_sort && sk_equiv g_cdict text_cdict && g_side = true.
 Proof. exact text_is_model_text. Qed.
 
 (** on every listed path through the GENERATED skeletons (first request / later request /
@@ -289,3 +294,18 @@ Example C12_ex_text :
   paths_ok Repaired g_wsdl g_attrs (text_validate Pinned) g_memo g_sort = false /\
   paths_ok Pinned (text_wsdl Pinned) (text_attrs Pinned) (text_validate Pinned) text_memo text_sort = true.
 Proof. vm_compute. repeat split. Qed.
+(** [sk_equiv] is not the total relation: it rejects the pinned texts, a flipped test, a store moved
+    past the sort, a dropped lock - and accepts a with-statement for acquire / try / finally /
+    release and a different number of updates of the still private dictionary *)
+Example C12_ex_sk_equiv :
+  (sk_equiv (text_wsdl Pinned) (text_wsdl Repaired) || sk_equiv (text_attrs Pinned) (text_attrs Repaired) ||
+   sk_equiv (text_validate Pinned) (text_validate Repaired) ||
+   sk_equiv (Rd AppWsdl ;; If CSome (Rd BWsdl) ;; If CNone wsdl_locked) (text_wsdl Repaired) ||
+   sk_equiv (If CSome (Call Func) ;; Rd SortCache ;; If CFresh Ret ;; Wr SortCache ;; SortIt ;; Ret) text_sort ||
+   sk_equiv (Rd MemoIn ;; If CMiss (Rd MemoIn ;; If CMiss (Call Func ;; Wr MemoIn ;; Ret)) ;; Rd MemoGet ;; Ret) text_memo)%sk
+  = false /\
+  (sk_equiv (Rd AppWsdl ;; If CNone (Rd BWsdl) ;; If CNone (With WLock (Try (Rd AppWsdl ;;
+               If CNone (Call Build ;; Rd BWsdl ;; Wr AppWsdl)) Skip Skip))) (text_wsdl Repaired) &&
+   sk_equiv (Rd AttrCache ;; If CSome Ret ;; New ;; If CTrue Upd ;; Wr AttrCache ;; Ret) (text_attrs Repaired))%sk
+  = true.
+Proof. vm_compute. split; reflexivity. Qed.
